@@ -155,6 +155,18 @@ func shapes() []shape {
 		{"dir-two-nonexec", func(b *hb, n, v string) srcSpec {
 			return dirSrc("src", ef(bin(n), 0o644, b.ok(n, v)), ef(bin(n+"2"), 0o644, b.ok(n+"2", v)))
 		}},
+		{"dir-two-nonexec-cross", func(b *hb, n, v string) srcSpec { // the first answers with the name of the second
+			return dirSrc("src", ef(bin(n), 0o644, b.ok(n+"2", v)), ef(bin(n+"2"), 0o644, b.ok(n+"2", v)))
+		}},
+		{"dir-two-nonexec-cross2", func(b *hb, n, v string) srcSpec { // the second answers with the name of the first
+			return dirSrc("src", ef(bin(n), 0o644, b.ok(n, v)), ef(bin(n+"2"), 0o644, b.ok(n, v)))
+		}},
+		{"dir-three-nonexec", func(b *hb, n, v string) srcSpec {
+			return dirSrc("src", ef(bin("aaa"), 0o644, b.ok(n, v)), ef(bin(n), 0o644, b.ok(n, v)), ef(bin("zzz"), 0o644, b.ok(n, v)))
+		}},
+		{"dir-two-exec-cross", func(b *hb, n, v string) srcSpec {
+			return dirSrc("src", ef(bin(n), 0o755, b.ok(n+"2", v)), ef(bin(n+"2"), 0o755, b.ok(n, v)))
+		}},
 		{"dir-three-exec-last", func(b *hb, n, v string) srcSpec { // two executables after a non-executable
 			return dirSrc("src", ef(bin("aaa"), 0o644, b.ok("aaa", v)), ef(bin(n), 0o755, b.ok(n, v)), ef(bin(n+"2"), 0o755, b.ok(n+"2", v)))
 		}},
@@ -399,7 +411,9 @@ func mutateDir(r *Rng, b *hb, s srcSpec) srcSpec {
 
 // ---------- version strings for the comparison cases ----------
 
-func randIdent(r *Rng, numericOK bool) string {
+// randIdent: a pre-release / build identifier. kind 0 = valid pre-release identifier,
+// 1 = valid build identifier (leading zeros allowed), 2 = possibly invalid.
+func randIdent(r *Rng, kind int) string {
 	switch r.Intn(8) {
 	case 0:
 		return "0"
@@ -408,12 +422,15 @@ func randIdent(r *Rng, numericOK bool) string {
 	case 2:
 		return Pick(r, []string{"alpha", "beta", "rc", "x", "X", "a-b", "-", "--", "z"})
 	case 3:
-		return Pick(r, []string{"1a", "0a", "00a", "1-", "a1", "a0", "A", "Z9"})
+		return Pick(r, []string{"1a", "0a", "00a", "1-", "a1", "a0", "A", "Z9", "0-", "-0"})
 	case 4:
-		if numericOK {
-			return Pick(r, []string{"01", "00", "007"}) // numeric with leading zero: invalid in a pre-release
+		switch kind {
+		case 1:
+			return Pick(r, []string{"01", "00", "007"}) // fine in build metadata
+		case 2:
+			return Pick(r, []string{"01", "00", "007", "", "a_b", "\xc3\xa9"}) // invalid
 		}
-		return "01"
+		return Pick(r, []string{"2", "3", "b", "B"})
 	case 5:
 		return Pick(r, []string{"9", "10", "11", "99", "100", "2", "20"})
 	case 6:
@@ -422,7 +439,9 @@ func randIdent(r *Rng, numericOK bool) string {
 	return Pick(r, []string{"alpha1", "alpha-1", "beta2", "beta11", "rc-1"})
 }
 
-func randVersion(r *Rng) string {
+// randVersion: valid (by construction; the regular expression of /repo decides) when
+// ok is true, otherwise a version with one or more defects.
+func randVersion(r *Rng, ok bool) string {
 	num := func() string {
 		switch r.Intn(10) {
 		case 0:
@@ -430,18 +449,25 @@ func randVersion(r *Rng) string {
 		case 1:
 			return Pick(r, []string{"9", "10", "11", "99", "100"})
 		case 2:
-			return Pick(r, []string{"01", "00", "", "a", "-1", "1 "})
+			if !ok {
+				return Pick(r, []string{"01", "00", "", "a", "-1", "1 "})
+			}
+			return "1"
 		case 3:
 			return Pick(r, []string{"4294967296", "18446744073709551616"})
 		}
 		return fmt.Sprint(r.Intn(4))
 	}
 	v := num() + "." + num() + "." + num()
-	if r.Chance(1, 12) {
+	if !ok && r.Chance(1, 6) {
 		v = num() + "." + num()
 	}
-	if r.Chance(1, 30) {
+	if !ok && r.Chance(1, 10) {
 		v += "." + num()
+	}
+	kind := 0
+	if !ok {
+		kind = 2
 	}
 	if r.Chance(3, 5) {
 		v += "-"
@@ -450,26 +476,30 @@ func randVersion(r *Rng) string {
 			if i > 0 {
 				v += "."
 			}
-			v += randIdent(r, true)
+			v += randIdent(r, kind)
 		}
-		if r.Chance(1, 25) {
+		if !ok && r.Chance(1, 6) {
 			v += Pick(r, []string{".", "..x", "_", "!"})
 		}
 	}
 	if r.Chance(1, 4) {
 		v += "+"
 		k := 1 + r.Intn(2)
+		bk := 1
+		if !ok {
+			bk = 2
+		}
 		for i := 0; i < k; i++ {
 			if i > 0 {
 				v += "."
 			}
-			v += randIdent(r, false)
+			v += randIdent(r, bk)
 		}
-		if r.Chance(1, 20) {
+		if !ok && r.Chance(1, 5) {
 			v += Pick(r, []string{".", "+x", "_"})
 		}
 	}
-	if r.Chance(1, 40) {
+	if !ok && r.Chance(1, 8) {
 		v = Pick(r, []string{"v", " ", "V", "="}) + v
 	}
 	return v
@@ -491,20 +521,20 @@ func genCompare(a *Args, rng *Rng) []caseSpec {
 	}
 	for k := 0; k < n; k++ {
 		r := rng.Fork(uint64(1_000_000 + k))
-		v := randVersion(r)
-		w := randVersion(r)
+		v := randVersion(r, r.Chance(5, 6))
+		w := randVersion(r, r.Chance(5, 6))
 		switch r.Intn(4) {
 		case 0: // same core, other pre-release: exercises the identifier rules
 			core := fmt.Sprintf("%d.%d.%d", r.Intn(2), r.Intn(2), r.Intn(2))
-			v = core + "-" + randIdent(r, false) + "." + randIdent(r, false)
-			w = core + "-" + randIdent(r, false)
+			v = core + "-" + randIdent(r, 0) + "." + randIdent(r, 0)
+			w = core + "-" + randIdent(r, 0)
 			if r.Bool() {
-				w += "." + randIdent(r, false)
+				w += "." + randIdent(r, 0)
 			}
 		case 1: // equal up to build metadata
 			w = v
 			if r.Bool() {
-				w += "+" + randIdent(r, false)
+				w += "+" + randIdent(r, 1)
 			}
 		}
 		out = append(out, caseSpec{Cmp: &cmpSpec{V: v, W: w}})
